@@ -19,7 +19,10 @@ def scenario_list(tier, seed):
     out = []
     sid = 0
     for gi, (n, edges) in enumerate(fam):
-        for sim in simruns.ALL + ["simple_contagion_tuple_statuses", "simple_contagion_many_statuses"]:
+        for sim in simruns.ALL + ["simple_contagion_tuple_statuses", "simple_contagion_many_statuses", "simple_contagion_directed",
+                                  "fast_SIR+R0", "Gillespie_SIR+R0", "fast_nonMarkov_SIR+R0", "discrete_SIR+R0"]:
+            if sim.endswith("+R0") and n < 5:
+                continue
             for s in ((11, 12) if tier == "quick" else (11, 12, 13, 14)):
                 out.append({"id": sid, "sim": sim, "n": n, "edges": edges, "seed": s * 7 + gi, "weighted": (s % 2 == 0)})
                 sid += 1
@@ -46,7 +49,28 @@ def run_one(EoN, sc, full):
     sim = sc["sim"]
     random.seed(sc["seed"])
     np.random.seed(sc["seed"])
-    if sim == "simple_contagion_many_statuses":
+    if sim == "simple_contagion_directed":
+        D = nx.DiGraph()
+        D.add_nodes_from(nm)
+        for k, (u, v) in enumerate(sc["edges"]):
+            D.add_edge(nm[u - 1], nm[v - 1])
+            if k % 2 == 0:
+                D.add_edge(nm[v - 1], nm[u - 1])
+            if k % 3 == 0 and nm[(u + 1) % n] != nm[v - 1]:     # no self-loops
+                D.add_edge(nm[(u + 1) % n], nm[v - 1])
+        H = nx.DiGraph()
+        H.add_edge("Infected", "Recovered", rate=1.0)
+        H.add_edge("Recovered", "Susceptible", rate=1.0)
+        J = nx.DiGraph()
+        J.add_edge(("Infected", "Susceptible"), ("Infected", "Infected"), rate=2.0)
+        IC = {u: "Susceptible" for u in D}
+        IC[nm[0]] = "Infected"
+        IC[nm[-1]] = "Infected"
+        rs = ["Susceptible", "Infected", "Recovered"]
+        G = D
+        r = EoN.Gillespie_simple_contagion(D, H, J, IC, rs, tmax=5, return_full_data=full)
+        kind_sts = rs
+    elif sim == "simple_contagion_many_statuses":
         H = nx.DiGraph()
         for a, b, rt in (("Exposed", "Infectious", 2.0), ("Infectious", "Recovered", 1.0), ("Recovered", "Susceptible", 0.5),
                          ("Susceptible", "Vaccinated", 0.25), ("Vaccinated", "Susceptible", 0.25), ("Infectious", "Hospital", 0.5),
@@ -75,9 +99,13 @@ def run_one(EoN, sc, full):
         r = EoN.Gillespie_simple_contagion(G, H, J, IC, rs, tmax=4, return_full_data=full)
         kind_sts = rs
     else:
+        ikw = {"initial_infecteds": [nm[0], nm[-1]]}
+        if sim.endswith("+R0"):
+            sim = sim[:-3]
+            ikw = {"initial_infecteds": [nm[0], nm[2], nm[-1]], "initial_recovereds": [nm[1], nm[3]]}
         kind = simruns.kind_of(sim)
         call = {"tau": 1.5, "gamma": 1.0, "p": 0.6, "tmin": 0, "tmax": (None if kind == "SIR" else 4),
-                "init_kw": {"initial_infecteds": [nm[0], nm[-1]]}, "weighted": sc["weighted"]}
+                "init_kw": ikw, "weighted": sc["weighted"]}
         r = simruns.call_sim(EoN, sim, G, call, full)
         kind_sts = ["S", "I", "R"] if kind == "SIR" else ["S", "I"]
     if not full:
